@@ -258,10 +258,11 @@ def check(repo: Repo, rep: Report) -> None:
     rep.ob("L5-single-assignment", sad, "rejects second assignment", bool(raises),
            "a second assignment to a live SingleAssignmentDisposable is not rejected")
     for r in raises:
-        guarded = any(field_of(x) == "current" for e, p in r.ctx.guards for x in ast.walk(e))
+        guarded = any(field_of(x) == "current" for e, p in r.ctx.guards for x in ast.walk(e)) \
+            and not any(isinstance(x, ast.Name) and x.id in sad.params[1:] for e, p in r.ctx.guards for x in ast.walk(e))
         rep.ob("L5-single-assignment", sad, short(r.node), guarded and cl.held(r),
-               "the 'already assigned' test is made outside the lock: two concurrent first assignments both pass it and "
-               "one item is lost (never disposed)")
+               "the 'already assigned' test is made outside the lock (two concurrent first assignments both pass it and one item is lost), or "
+               "it also depends on the value being assigned (a second assignment of None is accepted: the held item is dropped undisposed)")
     # composite add / remove / dispose / clear
     comp = cls["CompositeDisposable"]
     add = comp.child("add")
